@@ -310,6 +310,11 @@ func (u *Unit) invoke(st *State, v ssa.Value, c *ssa.CallCommon, instr ssa.Instr
 	sig := c.Signature()
 	u.safety(st, "nilinvoke", not(eq(sx("ifc_tag", recv), "0")), instr.Pos())
 	key := u.eng.ifaceMethodKey(c.Value.Type(), c.Method)
+	if key == "(error).Error" {
+		u.s.declFun("errmsg", []Sort{SIfc}, SStr)
+		u.setResults(st, v, sig, []Term{sx("errmsg", recv)})
+		return
+	}
 	if con := u.eng.contracts[key]; con != nil {
 		args := []TV{{T: recv, Ty: c.Value.Type()}}
 		args = append(args, u.argTVs(st, sig, c.Args, nil)...)
